@@ -49,13 +49,14 @@ pub mod fs {
     use super::*;
     pub fn read_dir(p: &Path) -> io::Result<ReadDir> { Ok(ReadDir { dir: p.0, next: 1 }) }
     pub struct File;
-    impl File { pub fn open(_p: &PathBuf) -> io::Result<super::File> { Err(IoError) } }
+    // node 2 is a zip archive with two members
+    impl File { pub fn open(p: &PathBuf) -> io::Result<super::File> { if p.0 .0 == 2 { Ok(super::File) } else { Err(IoError) } } }
 }
 pub mod std { pub mod fs { use super::super::*; pub fn read_link(_p: &PathBuf) -> io::Result<PathBuf> { Err(IoError) } } }
-pub mod zip { use super::*; pub struct ZipFile; pub struct ZipArchive;
-    impl ZipArchive { pub fn new(_f: File) -> Result<ZipArchive, ()> { Err(()) } pub fn len(&self) -> usize { 0 } pub fn by_index(&mut self, _i: usize) -> Result<ZipFile, ()> { Err(()) } } }
-pub struct FileInfo;
-pub fn to_file_info(_f: &zip::ZipFile) -> FileInfo { FileInfo }
+pub mod zip { use super::*; pub struct ZipFile(pub u8); pub struct ZipArchive;
+    impl ZipArchive { pub fn new(_f: File) -> Result<ZipArchive, ()> { Ok(ZipArchive) } pub fn len(&self) -> usize { 2 } pub fn by_index(&mut self, i: usize) -> Result<ZipFile, ()> { Ok(ZipFile(i as u8 + 1)) } } }
+pub struct FileInfo(pub u8);
+pub fn to_file_info(f: &zip::ZipFile) -> FileInfo { FileInfo(f.0) }
 pub struct Repository;
 impl Repository { pub fn is_path_ignored(&self, _p: &PathBuf) -> Result<bool, ()> { Ok(false) } pub fn open(_p: &PathBuf) -> Result<Repository, ()> { Err(()) } }
 pub struct Filters;
@@ -75,9 +76,10 @@ pub struct Searcher { pub query: Query, pub found: u32, pub buffered: bool, pub 
                       pub log: [u8; 8], pub n: usize }
 impl Searcher {
     pub fn is_buffered(&self) -> bool { self.buffered }
-    pub fn is_zip_archive(&self, _s: &String) -> bool { false }
+    pub fn is_zip_archive(&self, s: &String) -> bool { s.0 == 2 }
     // stands for check_file with no WHERE clause: every entry handed over is counted (C06.found.accounting) and recorded
-    pub fn check_file(&mut self, e: &DirEntry, _fi: &Option<FileInfo>) -> io::Result<bool> { if self.n < 8 { self.log[self.n] = e.0; self.n += 1; } self.found += 1; Ok(true) }
+    // an archive member is recorded as 10 * member + entry
+    pub fn check_file(&mut self, e: &DirEntry, fi: &Option<FileInfo>) -> io::Result<bool> { let code = match fi { Some(m) => 10 * m.0 + e.0, None => e.0 }; if self.n < 8 { self.log[self.n] = code; self.n += 1; } self.found += 1; Ok(true) }
     // stands for ok_to_visit_dir (C01.ok_to_visit): a directory is entered once
     pub fn ok_to_visit_dir(&mut self, e: &DirEntry, _t: FileType) -> bool { let was = self.visited_entries[e.0 as usize]; self.visited_entries[e.0 as usize] = true; !was }
 }
